@@ -610,7 +610,13 @@ impl<'a> GeneralCheck<'a> {
                     let check_rec =
                         |(i, op)| self.name_references_rule(cst, sema, rule, op).then_some(i);
                     let left_rec = concat_ops.next().and_then(check_rec);
-                    let right_rec = concat_ops.last().and_then(check_rec);
+                    let right_rec = concat_ops.last();
+                    if left_rec.is_some() && right_rec.is_none() {
+                        // the branch consists of nothing but the left recursive reference
+                        diags.push(Diagnostic::consume_tokens(&alt_op.span(cst)));
+                        continue;
+                    }
+                    let right_rec = right_rec.and_then(check_rec);
 
                     if left_rec.is_some()
                         && (sema
